@@ -29,7 +29,7 @@ def _bad(t: dict) -> bool:
 def describe(t: dict, r: dict):
     case = t["case"]
     if r["clause"] == "ReparseClean":
-        rule = fs.culprit_by_single_rule(t, _bad)
+        rule = fs.glue_culprit(t) or fs.culprit_by_single_rule(t, _bad)
         crash = next((e.get("crash") for e in t["events"] if e["ev"] == "Reparse" and e.get("crash")), None)
         how, kinds = fs.lex_signature(t)
         sig = {"rule": rule, "template": fs.template_kind(case), "lex": f"{how}:{kinds}" if kinds else how,
